@@ -304,6 +304,13 @@ def fault_cases(spec):
             d, setter, _ = list(reference_sites(m))[si]
             setter(target)
             out.append(("%s->%s" % (d, tname), irgen.file_bytes(m, PV)))
+            if d.startswith("edge."):
+                # the same fault in a file whose (redundant) vertex list
+                # names the bad endpoint too, as a writer that dumps its
+                # graph's vertices together with its edges would produce
+                m.cfg.vertices.append(target)
+                out.append(("%s->%s+listed-as-vertex" % (d, tname),
+                            irgen.file_bytes(m, PV)))
     return out
 
 
